@@ -210,6 +210,10 @@ class BeltStore(Store):
                         
         else:# if not items succeed, belt is empty and succeed immediately
             #if self.accumulation_mode_indicator==False or (self.accumulation_mode_indicator==True and len(self.ready_items)==0):
+                if not self.accumulation_mode_indicator and self.ready_items:
+                    # nothing is moving, but the head item still waits at the exit of a non-accumulating
+                    # belt: the belt is stopped and admits nothing until the head has been taken
+                    return
                 if len(self.reservations_put) + len(self.items) +len(self.ready_items) < self.capacity:
 
                     self.reservations_put.append(event)  # Add reservation
